@@ -379,6 +379,12 @@ class FTPProcessorSession(BaseProcessorSession):
         self._item_session.update_record_value(status_code=response.reply.code)
         is_listing = isinstance(response, ListingResponse)
 
+        if is_listing:
+            # The entries are queued before the directory is marked as done
+            # (which stores them): a crawl that is killed in between would
+            # otherwise never learn about them.
+            self._add_listing_links(response)
+
         if is_listing and not self._processor.fetch_params.remove_listing or \
                 not is_listing:
             filename = self._file_writer_session.save_document(response)
@@ -386,9 +392,6 @@ class FTPProcessorSession(BaseProcessorSession):
         else:
             self._file_writer_session.discard_document(response)
             action = self._result_rule.handle_no_document(self._item_session)
-
-        if isinstance(response, ListingResponse):
-            self._add_listing_links(response)
 
         return action
 
